@@ -413,3 +413,23 @@ Definition version_text (v : version) : list N :=
 Definition trigger_line (mode : N) (v : version) (uid port : N) : list N :=
   trigger_head ++ marker ++ mode :: ch_colon :: version_text v ++ ch_colon :: dec_pad 13 uid
   ++ ch_colon :: dec_of port ++ [CR; LF].
+
+(* ------------------------------------------------------------------------------------ *)
+(* ghost history for C06_replay: the dedup-eligible ids of the triggers one detector has
+   accepted so far, newest first, over an arbitrary sequence of calls *)
+
+Definition hist_step (winenv : bool) (st : det * list (list N)) (c : bool * list N)
+  : det * list (list N) :=
+  let '(o, t, d') := detect winenv (fst st) (fst c) (snd c) in
+  (d', match t with
+       | Some tr => if dedup_eligible winenv (t_id tr) then t_id tr :: snd st else snd st
+       | None => snd st
+       end).
+
+Definition hist_run (winenv : bool) (d : det) (calls : list (bool * list N)) : det * list (list N) :=
+  fold_left (hist_step winenv) calls (d, []).
+
+(* how many of the most recently accepted ids are guaranteed to be still remembered:
+   a prune keeps limit+1-keep entries and the new id is added to them *)
+Definition replay_window : nat :=
+  N.to_nat (Consts.det_prune_limit + 1 - Consts.det_prune_keep + 1).
